@@ -1,6 +1,233 @@
 import OtelVerif.Common.Line
 import OtelVerif.Model.C13
-/-! driver for C13 (stub) -/
-def main : IO UInt32 := do
-  IO.eprintln "drv_c13: not built yet"
-  return 2
+/-! driver for C13: models `c13-walk` (validation walk), `c13-refs` (reference checks), `c13-dec` (strict decode) -/
+open OtelVerif OtelVerif.Line OtelVerif.C13
+
+namespace OtelVerif.Drivers.C13
+
+def parseErr (s : String) : Option (Option Nat) :=
+  if s == "-" then some none else s.toNat?.map some
+
+/-! `F<e>` leaf, `Z` nil, `P v`, `T<e>:<n> (f:<hexname>:<e|u> v)…`, `Q<e>:<n> v…`, `M<e>:<n> (k:<hexkey> kv v)…` -/
+mutual
+partial def parseVT : List String → Option (VT × List String)
+  | [] => none
+  | t :: rest =>
+    let arg := (t.drop 1).toString
+    match t.front with
+    | 'F' => (parseErr arg).map fun e => (.leaf e, rest)
+    | 'Z' => some (.nilv, rest)
+    | 'P' => (parseVT rest).map fun (v, r) => (.ptr v, r)
+    | 'T' => match arg.splitOn ":" with
+      | [e, n] => (parseErr e).bind fun e => n.toNat?.bind fun n => (parseFs n rest).map fun (fs, r) => (.struct e fs, r)
+      | _ => none
+    | 'Q' => match arg.splitOn ":" with
+      | [e, n] => (parseErr e).bind fun e => n.toNat?.bind fun n => (parseVs n rest).map fun (vs, r) => (.seq e vs, r)
+      | _ => none
+    | 'M' => match arg.splitOn ":" with
+      | [e, n] => (parseErr e).bind fun e => n.toNat?.bind fun n => (parseKVs n rest).map fun (kvs, r) => (.map e kvs, r)
+      | _ => none
+    | _ => none
+partial def parseFs : Nat → List String → Option (List (String × Bool × VT) × List String)
+  | 0, r => some ([], r)
+  | n + 1, r =>
+    match r with
+    | ft :: r1 =>
+      match ft.splitOn ":" with
+      | ["f", hn, ex] =>
+        (unhex hn).bind fun name => (parseVT r1).bind fun (v, r2) => (parseFs n r2).map fun (fs, r3) => ((name, ex == "e", v) :: fs, r3)
+      | _ => none
+    | [] => none
+partial def parseVs : Nat → List String → Option (List VT × List String)
+  | 0, r => some ([], r)
+  | n + 1, r => (parseVT r).bind fun (v, r1) => (parseVs n r1).map fun (vs, r2) => (v :: vs, r2)
+partial def parseKVs : Nat → List String → Option (List (String × VT × VT) × List String)
+  | 0, r => some ([], r)
+  | n + 1, r =>
+    match r with
+    | kt :: r1 =>
+      match kt.splitOn ":" with
+      | ["k", hk] =>
+        (unhex hk).bind fun k => (parseVT r1).bind fun (kv, r2) => (parseVT r2).bind fun (v, r3) =>
+          (parseKVs n r3).map fun (kvs, r4) => ((k, kv, v) :: kvs, r4)
+      | _ => none
+    | [] => none
+end
+
+def insertStr (s : String) : List String → List String
+  | [] => [s]
+  | x :: xs => if s < x then s :: x :: xs else x :: insertStr s xs
+
+def sortStrs (l : List String) : List String := l.foldr insertStr []
+
+def showErrs (l : List (Path × Nat)) : String :=
+  let items := sortStrs (l.map (fun p => "::".intercalate p.1 ++ ":E" ++ toString p.2))
+  if items.isEmpty then "-" else ",".intercalate items
+
+def errItems (l : List (Path × Nat)) : List String :=
+  sortStrs (l.map (fun p => "::".intercalate p.1 ++ ":E" ++ toString p.2))
+
+structure WS where
+  model : List String := []
+  fails : List String := []
+
+/-- the search oracle is `validate` itself: by `C13_validate_complete` it is the executable form of
+"exactly the failing validators reachable from the root are reported, with their paths" -/
+def walkHandler : Handler WS where
+  init := {}
+  onOp := fun s toks =>
+    match toks with
+    | "walk" :: ":" :: rest =>
+      match parseVT rest with
+      | some (t, []) => ({ s with model := errItems (validate t) }, ["obs errs " ++ showErrs (validate t)])
+      | _ => (s, ["obs bad-op"])
+    | _ => (s, ["obs bad-op"])
+  onObs := fun s toks =>
+    match toks with
+    | ["obs", "errs", l] =>
+      let impl := if l == "-" then [] else l.splitOn ","
+      let missing := s.model.filter (fun x => !impl.contains x)
+      let extra := impl.filter (fun x => !s.model.contains x)
+      let f1 := if missing.isEmpty then [] else [s!"sig=C13/walk/failing-nested-validator-not-reported missing={",".intercalate missing}"]
+      let f2 := if extra.isEmpty then [] else [s!"sig=C13/walk/error-reported-without-failing-validator extra={",".intercalate extra}"]
+      { s with fails := s.fails ++ f1 ++ f2 }
+    | _ => s
+  onEnd := fun s => if s.fails.isEmpty then ["prop walk=ok"] else s.fails.map (fun f => "prop walk=FAIL " ++ f)
+
+/-! ### refs -/
+
+def parseIds (s : String) : List Nat := if s == "-" then [] else (s.splitOn ",").filterMap String.toNat?
+
+def parseFlagged (s : String) : List (Nat × Bool) :=
+  if s == "-" then [] else (s.splitOn ",").filterMap fun t =>
+    match t.splitOn ":" with
+    | [a, b] => a.toNat?.map fun n => (n, b == "1")
+    | _ => none
+
+def parsePipe (t : String) : Option (Nat × Pipe) :=
+  match t.splitOn ";" with
+  | [pid, r, p, e] =>
+    match (pid.drop 2).toString.toNat? with
+    | some pid => some (pid, ⟨parseIds r, parseIds p, parseIds e⟩)
+    | none => none
+  | _ => none
+
+def RErr.show : RErr → String
+  | .emptyConfig => "emptyConfig" | .noReceivers => "noReceivers" | .noExporters => "noExporters"
+  | .ambiguousExporter c => s!"ambE {c}" | .ambiguousReceiver c => s!"ambR {c}"
+  | .danglingExtension r => s!"dext {r}"
+  | .danglingReceiver p r => s!"drecv {p} {r}" | .danglingProcessor p r => s!"dproc {p} {r}" | .danglingExporter p r => s!"dexp {p} {r}"
+  | .pipeNoReceivers p => s!"pnr{p}" | .pipeNoExporters p => s!"pne{p}" | .dupProcessor p r => s!"dup{p}:{r}"
+  | .noPipelines => "noPipelines"
+
+structure RS where
+  top : Option Top := none
+  fails : List String := []
+
+def refsHandler : Handler RS where
+  init := {}
+  onOp := fun s toks =>
+    match toks with
+    | "refs" :: rest =>
+      let kvs := rest.takeWhile (· != "|")
+      let pipes := ((rest.dropWhile (· != "|")).drop 1).filterMap parsePipe
+      let g := fun k => (kv kvs k).getD "-"
+      let c : Top := { receivers := parseIds (g "recv"), exporters := parseIds (g "exp"), connectors := parseIds (g "conn"),
+                       processors := parseFlagged (g "proc"), extensions := parseFlagged (g "ext"),
+                       svcExtensions := parseIds (g "svcext"), pipelines := pipes }
+      let root := rootErrs c
+      let shape := sortStrs ((shapeErrs c).map RErr.show)
+      let o := if root.isEmpty && shape.isEmpty then "obs ok"
+        else s!"obs err root={if root.isEmpty then 0 else 1} shape={if shape.isEmpty then "-" else ",".intercalate shape}"
+      ({ s with top := some c }, [o])
+    | _ => (s, ["obs bad-op"])
+  onObs := fun s toks =>
+    match toks, s.top with
+    | ["obs", "ok"], some c =>
+      -- by `C13_refs` / `C13_shape`: acceptance must coincide with the absence of every defect class
+      if (rootErrs c).isEmpty && (shapeErrs c).isEmpty then s
+      else { s with fails := s!"sig=C13/refs/invalid-config-accepted admissible={(((rootErrs c) ++ (shapeErrs c)).map RErr.show).map (·.replace " " "_")}" :: s.fails }
+    | "obs" :: "err" :: rest, some c =>
+      let shapeImpl := ((kv rest "shape").getD "-")
+      let shapeModel := sortStrs ((shapeErrs c).map RErr.show)
+      let sm := if shapeModel.isEmpty then "-" else ",".intercalate shapeModel
+      let f1 := if (rootErrs c).isEmpty && (shapeErrs c).isEmpty then ["sig=C13/refs/valid-config-rejected"] else []
+      let f2 := if shapeImpl != sm then [s!"sig=C13/refs/pipeline-shape-error-not-reported expected={sm} got={shapeImpl}"] else []
+      let f3 := if !(rootErrs c).isEmpty && kvNat rest "root" == some 0 then ["sig=C13/refs/reference-error-not-reported"] else []
+      { s with fails := f3 ++ f2 ++ f1 ++ s.fails }
+    | "tr" :: "root" :: rest, some c =>
+      let got := " ".intercalate rest
+      if (rootErrs c).any (fun e => RErr.show e == got) then s
+      else { s with fails := s!"sig=C13/refs/reported-error-not-admissible got={got.replace " " "_"}" :: s.fails }
+    | _, _ => s
+  onEnd := fun s => if s.fails.isEmpty then ["prop rooterr=ok"] else s.fails.reverse.map (fun f => "prop rooterr=FAIL " ++ f)
+
+/-! ### strict decode -/
+
+/-! `s` scalar, `p S`, `l S`, `m S`, `t<n> (f:<hexkey>:<q|-> S)…` -/
+mutual
+partial def parseSchema : List String → Option (Schema × List String)
+  | [] => none
+  | t :: rest =>
+    match t.front with
+    | 's' => some (.scalar, rest)
+    | 'p' => (parseSchema rest).map fun (s, r) => (.ptr s, r)
+    | 'l' => (parseSchema rest).map fun (s, r) => (.slice s, r)
+    | 'm' => (parseSchema rest).map fun (s, r) => (.map s, r)
+    | 't' => ((t.drop 1).toString.toNat?).bind fun n => (parseSF n rest).map fun (fs, r) => (.struct fs, r)
+    | _ => none
+partial def parseSF : Nat → List String → Option (List (String × Bool × Schema) × List String)
+  | 0, r => some ([], r)
+  | n + 1, r =>
+    match r with
+    | ft :: r1 =>
+      match ft.splitOn ":" with
+      | ["f", hk, sq] =>
+        (unhex hk).bind fun k => (parseSchema r1).bind fun (s, r2) => (parseSF n r2).map fun (fs, r3) => ((k, sq == "q", s) :: fs, r3)
+      | _ => none
+    | [] => none
+end
+
+/-! `n<k>` scalar, `M<n> (k:<hex> V)…`, `L<n> V…` -/
+mutual
+partial def parseVal : List String → Option (Val × List String)
+  | [] => none
+  | t :: rest =>
+    let arg := (t.drop 1).toString
+    match t.front with
+    | 'n' => arg.toNat?.map fun n => (.scalar n, rest)
+    | 'M' => arg.toNat?.bind fun n => (parseVKV n rest).map fun (kvs, r) => (.map kvs, r)
+    | 'L' => arg.toNat?.bind fun n => (parseVL n rest).map fun (vs, r) => (.list vs, r)
+    | _ => none
+partial def parseVKV : Nat → List String → Option (List (String × Val) × List String)
+  | 0, r => some ([], r)
+  | n + 1, r =>
+    match r with
+    | kt :: r1 =>
+      match kt.splitOn ":" with
+      | ["k", hk] => (unhex hk).bind fun k => (parseVal r1).bind fun (v, r2) => (parseVKV n r2).map fun (kvs, r3) => ((k, v) :: kvs, r3)
+      | _ => none
+    | [] => none
+partial def parseVL : Nat → List String → Option (List Val × List String)
+  | 0, r => some ([], r)
+  | n + 1, r => (parseVal r).bind fun (v, r1) => (parseVL n r1).map fun (vs, r2) => (v :: vs, r2)
+end
+
+def decHandler : Handler Unit where
+  init := ()
+  onOp := fun s toks =>
+    match toks with
+    | "dec" :: ":" :: rest =>
+      let st := rest.takeWhile (· != "|")
+      let vt := (rest.dropWhile (· != "|")).drop 1
+      match parseSchema st, parseVal vt with
+      | some (sc, []), some (v, []) => (s, [if decodeOk sc v then "obs ok" else "obs err"])
+      | _, _ => (s, ["obs bad-op"])
+    | "builtin" :: _ => (s, ["obs checked"])     -- built-in components: direct oracles only (`viol` lines of the harness)
+    | _ => (s, ["obs bad-op"])
+
+end OtelVerif.Drivers.C13
+
+def main : IO UInt32 :=
+  runMulti [("c13-walk", run OtelVerif.Drivers.C13.walkHandler), ("c13-refs", run OtelVerif.Drivers.C13.refsHandler),
+            ("c13-dec", run OtelVerif.Drivers.C13.decHandler)]
